@@ -301,6 +301,9 @@ def run(ctx, rep):
     # ... and the text that is cut is the text of the label's own file
     from rules.c05 import rule_pair
     rule_pair(ctx, rep, rid="R-C12-pair")
+    # a request is only answered if the code between receiving and answering it terminates
+    from rules import c04_progress
+    c04_progress.run(ctx, rep, rid="R-C12-progress")
     # spans are byte offsets into the pre-processed text but are applied to the original text: the pre-processor must keep every byte position
     from rules import c05_blank
     c05_blank.run(ctx, rep, rid="R-C12-blank")
